@@ -815,7 +815,9 @@ func (f *tsspFile) LoadIdTimes(p *IdTimePairs) error {
 	}
 	fr := f.reader
 
-	if err := fr.LoadIdTimes(f.IsOrder(), p); err != nil {
+	// f.mu is already read-locked here: calling f.IsOrder() would read-lock it again, which
+	// deadlocks as soon as a writer (Close, Rename, ...) queues up between the two RLock calls.
+	if err := fr.LoadIdTimes(f.name.order, p); err != nil {
 		return err
 	}
 
